@@ -3,7 +3,7 @@ from ..scanner_utils import is_quote, is_space
 
 class ScanState:
     __slots__ = ('start', 'end', 'property_delimiter', 'property_start',
-        'property_end', 'expression')
+        'property_end', 'expression', 'leading_colon')
 
     def __init__(self):
         self.start = -1
@@ -24,8 +24,12 @@ class ScanState:
         self.expression = 0
         "In expression context"
 
+        self.leading_colon = -1
+        "Location of colon that stands before anything else, as in `:root`"
+
     def reset(self):
         self.start = self.end = self.property_start = self.property_end = self.property_delimiter = -1
+        self.leading_colon = -1
 
 
 
@@ -105,11 +109,6 @@ def scan(source: str, callback: callable):
                 # No consumed selector, emit empty value as selector start
                 state.start = state.end = scanner.pos
 
-            if state.property_start == -1 and state.property_delimiter != -1 and state.property_delimiter == state.start - 1:
-                # Colon right before consumed token and nothing before it:
-                # a pseudo-selector like `:root {` or nested `:hover {`
-                state.start = state.property_delimiter
-
             if state.property_start != -1:
                 # Now we know that value that looks like property name-value pair
                 # was actually a selector
@@ -117,6 +116,10 @@ def scan(source: str, callback: callable):
                 if state.end == -1:
                     # Nothing but delimiter after “property name”, e.g. `a: {`
                     state.end = state.property_delimiter + 1
+
+            if state.leading_colon != -1 and state.leading_colon == state.start - 1:
+                # Selector starts with pseudo-class: `:root {`, nested `:hover {`
+                state.start = state.leading_colon
 
             if notify(TokenType.Selector):
                 return
@@ -130,6 +133,8 @@ def scan(source: str, callback: callable):
             # Since I can’t easily detect `:` meaning for sure, we’ll update state
             # to accumulate possible property name-value pair or selector
             if state.property_start == -1:
+                if state.start == -1 and state.leading_colon == -1:
+                    state.leading_colon = scanner.pos - 1
                 state.property_start = state.start
             if state.end != -1:
                 state.property_end = state.end
